@@ -2,8 +2,8 @@
 //
 // The parent process only orchestrates: lindb's calculators use time.Local, which is fixed at
 // process start, so every part of the workload runs in child processes started with TZ set.
-// UTC, Asia/Shanghai and Asia/Kolkata (+05:30, an offset that is not a whole number of hours) decide;
-// America/New_York (a DST zone) is run and reported only.
+// UTC, Asia/Shanghai, Asia/Kolkata (+05:30, an offset that is not a whole number of hours) and two zones that move
+// their clock (America/New_York, Europe/Berlin: local days of 23 h and 25 h) all decide.
 package main
 
 import (
@@ -24,15 +24,33 @@ import (
 
 const prop = "C13"
 
-// zones: the first two decide, the DST zone is reported only.
+// zones: all decide.  dst marks the zones that move their clock (23 h / 25 h local days): their children must
+// reach those days (see dstRequired), otherwise the run is inconclusive.  light zones run a reduced workload.
 var zones = []struct {
-	name    string
-	decides bool
+	name  string
+	dst   bool
+	light bool
 }{
-	{"UTC", true},
-	{"Asia/Shanghai", true},
-	{"Asia/Kolkata", true},
-	{"America/New_York", false},
+	{"UTC", false, false},
+	{"Asia/Shanghai", false, false},
+	{"Asia/Kolkata", false, false},
+	{"America/New_York", true, false},
+	{"Europe/Berlin", true, true},
+}
+
+// dstRequired lists, per part, the observation counters a zone with daylight saving must reach.
+var dstRequired = map[string][]string{
+	"calc": {"calc/dst/timestamps_23h-day", "calc/dst/timestamps_25h-day", "calc/dst/timestamps_25h-day-25th-hour",
+		"calc/dst/timestamps_first-hour-after-23h-day", "calc/dst/month/walk_families_on_23h-day", "calc/dst/month/walk_families_on_25h-day",
+		"calc/dst/day/walk_families_on_23h-day", "calc/dst/day/walk_families_on_25h-day"},
+	"broker": {"broker/dst/month/batches_with_rows_on_23h_day_and_in_first_hour_after_it", "broker/dst/month/rows_25h-day-25th-hour",
+		"broker/dst/day/rows_25h-day-25th-hour", "broker/dst/day/rows_23h-day"},
+	"tsdb": {"tsdb/dst/month/touches_25h-day-25th-hour", "tsdb/dst/month/touches_first-hour-after-23h-day", "tsdb/dst/month/touches_23h-day",
+		"tsdb/dst/day/touches_25h-day-25th-hour", "tsdb/dst/day/touches_23h-day",
+		"tsdb/dst/month/live/range_queries_inside_25h-day-25th-hour_with_hits", "tsdb/dst/month/live/range_queries_inside_first-hour-after-23h-day_with_hits",
+		"tsdb/dst/month/reopened/range_queries_inside_25h-day-25th-hour_with_hits"},
+	"plan":   {"plan/dst/requests_on_slot_grid_shifted_by_transition_inside_family/year", "plan/dst/requests_starting_or_ending_on_transition_day"},
+	"rollup": {"rollup/dst/month/points_25h-day-25th-hour", "rollup/dst/month/points_23h-day", "rollup/dst/month/dense_source_slots_in_25th_hour"},
 }
 
 // recViolation is one violation class observed by a child.
@@ -120,7 +138,8 @@ func (r *rec) write(path string) {
 type job struct {
 	part   string
 	tz     string
-	decide bool
+	dst    bool
+	light  bool
 	shard  int
 	shards int
 }
@@ -140,34 +159,48 @@ func main() {
 		"intervals = day{1s,5s,10s,30s,1m,2m,7s,45s} month{5m,10m,30m,7m,45m} year{1h,2h,4h,6h,12h,1d,5h}; " +
 		"a case is non-trivial when the checked timestamp lies within 1 s of a family or segment boundary; distinct key = " +
 		"(zone, part, interval type, segment, boundary kind) for calculator/tsdb/broker/rollup cases and " +
-		"(zone, option set, storage interval, range-length bucket, edge kind) for planner cases")
+		"(zone, option set, storage interval, range-length bucket, edge kind) for planner cases; " +
+		"zones that move their clock (America/New_York, Europe/Berlin) additionally get every hour of their 23 h / 25 h local days as oversampled batch/plan anchors, " +
+		"a seeded selection of those days (thorough: all) as tsdb touch/query targets (start+23h, start+24h, real day end, first hour of the next day) and as rollup source hours; " +
+		"a run in which such a zone did not reach these situations (counters */dst/*) is inconclusive")
 	c.Assume("Go's time package (time.Date / time.LoadLocation with an explicit *Location) is a correct calendar; the oracle never calls lindb's IntervalCalculator")
-	c.Assume("UTC, Asia/Shanghai and Asia/Kolkata (+05:30) decide; America/New_York (DST) is run and only reported (the property scopes calendar features to month lengths, leap days, year ends)")
+	c.Assume("UTC, Asia/Shanghai, Asia/Kolkata (+05:30), America/New_York and Europe/Berlin (daylight saving: 23 h and 25 h local days) all decide; " +
+		"on a day on which the clock is moved the hour families of a day-type segment are numbered by elapsed hours since local midnight (the statement asks for containment, tiling and stability, not for the clock label)")
 	c.Assume("planner alignment / containment is decided only for storage intervals that divide their family unit (hour, day, day); other intervals are reported")
 	c.Assume("database retention is 200 years so that the wall clock cannot expire a generated segment (window ends 2032)")
 
 	scratch := c.Scratch()
 	var jobs []job
+	// development aid: VERIF_C13_ZONES=a,b restricts the run to some zones (recorded in the evidence; unset = all)
+	if only := os.Getenv("VERIF_C13_ZONES"); only != "" {
+		kept := zones[:0:0]
+		for _, z := range zones {
+			for _, o := range strings.Split(only, ",") {
+				if o == z.name {
+					kept = append(kept, z)
+				}
+			}
+		}
+		zones = kept
+		c.Set("zones_restricted_by_VERIF_C13_ZONES", only)
+	}
 	for _, z := range zones {
-		nCalc := c.Pick(4, 32)
-		if !z.decides {
-			nCalc = c.Pick(1, 4)
+		nCalc, nPlan, nTsdb, nRoll := c.Pick(4, 32), c.Pick(2, 8), c.Pick(1, 3), c.Pick(2, 3)
+		if z.light {
+			nCalc, nPlan, nTsdb, nRoll = c.Pick(1, 8), c.Pick(1, 2), 1, 1
 		}
 		for s := 0; s < nCalc; s++ {
-			jobs = append(jobs, job{"calc", z.name, z.decides, s, nCalc})
+			jobs = append(jobs, job{"calc", z.name, z.dst, z.light, s, nCalc})
 		}
-		nPlan := c.Pick(2, 8)
 		for s := 0; s < nPlan; s++ {
-			jobs = append(jobs, job{"plan", z.name, z.decides, s, nPlan})
+			jobs = append(jobs, job{"plan", z.name, z.dst, z.light, s, nPlan})
 		}
-		jobs = append(jobs, job{"broker", z.name, z.decides, 0, 1})
-		nTsdb := c.Pick(1, 3)
+		jobs = append(jobs, job{"broker", z.name, z.dst, z.light, 0, 1})
 		for s := 0; s < nTsdb; s++ {
-			jobs = append(jobs, job{"tsdb", z.name, z.decides, s, nTsdb})
+			jobs = append(jobs, job{"tsdb", z.name, z.dst, z.light, s, nTsdb})
 		}
-		nRoll := c.Pick(2, 3)
 		for s := 0; s < nRoll; s++ {
-			jobs = append(jobs, job{"rollup", z.name, z.decides, s, nRoll})
+			jobs = append(jobs, job{"rollup", z.name, z.dst, z.light, s, nRoll})
 		}
 	}
 	// longest first
@@ -189,7 +222,7 @@ func main() {
 		resFile := filepath.Join(dir, "result.json")
 		logFile := filepath.Join(dir, "child.log")
 		args := []string{"child", j.part, j.tz, strconv.Itoa(j.shard), strconv.Itoa(j.shards), dir, resFile, c.Tier}
-		env := []string{"TZ=" + j.tz, "VERIF_TIER=" + c.Tier, fmt.Sprintf("VERIF_SEED=%d", c.Seed)}
+		env := []string{"TZ=" + j.tz, "VERIF_TIER=" + c.Tier, fmt.Sprintf("VERIF_SEED=%d", c.Seed), fmt.Sprintf("VERIF_C13_LIGHT=%v", j.light)}
 		t0 := time.Now()
 		cr := core.RunChild("", args, env, watchdog, logFile)
 		walls[i] = time.Since(t0).Seconds()
@@ -210,16 +243,17 @@ func main() {
 		results[i] = r
 	})
 
-	reported := map[string]interface{}{}
 	jobWall := map[string]float64{}
 	for i, j := range jobs {
 		jobWall[j.name()] = float64(int(walls[i]*10)) / 10
 	}
 	c.Set("child_wall_s", jobWall)
+	zoneCounters := map[string]map[string]int64{} // zone -> counter -> sum over its children
+	zoneParts := map[string]map[string]bool{}     // zone -> parts that delivered a result
 	for i, j := range jobs {
 		if fails[i] != "" {
-			// a crash inside lindb code on valid input is a violation of its own class for deciding zones
-			if j.decide && strings.Contains(fails[i], "github.com/lindb/lindb/") && strings.Contains(fails[i], "panic") &&
+			// a crash inside lindb code on valid input is a violation of its own class
+			if strings.Contains(fails[i], "github.com/lindb/lindb/") && strings.Contains(fails[i], "panic") &&
 				!strings.Contains(fails[i], "watchdog") {
 				c.Violation("C13/"+j.part+"/panic-in-lindb", fails[i], map[string]interface{}{"job": j.name()})
 			} else {
@@ -230,41 +264,51 @@ func main() {
 		r := results[i]
 		c.Eval(int(r.Evals))
 		ztag := zoneTag(j.tz)
+		if zoneCounters[j.tz] == nil {
+			zoneCounters[j.tz], zoneParts[j.tz] = map[string]int64{}, map[string]bool{}
+		}
+		zoneParts[j.tz][j.part] = true
 		for k, v := range r.Counters {
 			c.Count(ztag+"/"+k, int(v))
+			zoneCounters[j.tz][k] += v
 		}
 		for _, m := range r.Inconcl {
 			c.Inconclusive("%s: %s", j.name(), m)
 		}
-		if j.decide {
-			for _, k := range r.NontrivialKs {
-				c.Nontrivial(k)
-			}
-			for _, s := range r.Samples {
-				c.Sample(s)
-			}
-			for _, v := range r.Violations {
-				for n := 0; n < v.Count; n++ {
-					c.Violation(v.Class, v.Message, v.Witness)
-					if n > 50 {
-						break
-					}
-				}
-			}
-		} else {
-			c.Count(ztag+"/nontrivial_keys(not counted)", len(r.NontrivialKs))
-			for _, v := range r.Violations {
-				c.Count(ztag+"/reported_only/"+v.Class, v.Count)
-				if _, ok := reported[v.Class]; !ok {
-					reported[v.Class] = map[string]interface{}{"message": v.Message, "witness": v.Witness, "count": v.Count}
+		for _, k := range r.NontrivialKs {
+			c.Nontrivial(k)
+		}
+		for _, s := range r.Samples {
+			c.Sample(s)
+		}
+		for _, v := range r.Violations {
+			for n := 0; n < v.Count; n++ {
+				c.Violation(v.Class, v.Message, v.Witness)
+				if n > 50 {
+					break
 				}
 			}
 		}
 	}
-	c.Set("dst_zone_reported_not_deciding", reported)
+	// a zone that moves its clock must have reached the days on which it does, in every part
+	for _, z := range zones {
+		if !z.dst {
+			continue
+		}
+		for part, names := range dstRequired {
+			if !zoneParts[z.name][part] {
+				continue // the child failed, already reported above
+			}
+			for _, n := range names {
+				if zoneCounters[z.name][n] == 0 {
+					c.Inconclusive("zone %s part %s never observed %q (daylight-saving situation not reached)", z.name, part, n)
+				}
+			}
+		}
+	}
 	zs := []string{}
 	for _, z := range zones {
-		zs = append(zs, fmt.Sprintf("%s(decides=%v)", z.name, z.decides))
+		zs = append(zs, fmt.Sprintf("%s(decides=true,dst=%v,light=%v)", z.name, z.dst, z.light))
 	}
 	c.Set("zones", zs)
 	c.Finish()
@@ -280,6 +324,8 @@ func zoneTag(tz string) string {
 		return "kolkata"
 	case "America/New_York":
 		return "newyork"
+	case "Europe/Berlin":
+		return "berlin"
 	}
 	return tz
 }
@@ -306,7 +352,8 @@ func childMain(args []string) {
 		seed = 1
 	}
 	r := newRec(tz, part)
-	env := &childEnv{rec: r, tz: tz, shard: shard, shards: shards, dir: dir, quick: tier != "thorough", seed: seed}
+	env := &childEnv{rec: r, tz: tz, shard: shard, shards: shards, dir: dir, quick: tier != "thorough", seed: seed,
+		light: os.Getenv("VERIF_C13_LIGHT") == "true"}
 	loc, err := time.LoadLocation(tz)
 	if err != nil {
 		r.Inconclusive("zone %s cannot be loaded: %v", tz, err)
